@@ -67,6 +67,8 @@ def param_grid(spec, variant, thorough, rnd):
             axes[pname] = ["close", "@X0", "@X3"] if ty == "name" else ["@D2"]
         elif ty.startswith("lit:"):
             axes[pname] = [ty[4:]]
+        elif ty.startswith("const:"):
+            axes[pname] = [int(ty[6:])]
         elif ty.startswith("func:"):
             axes[pname] = [import_class(ty[5:])]
         else:
